@@ -16,6 +16,7 @@ package bytes
 import (
 	"fmt"
 	"github.com/acquirecloud/golibs/errors"
+	"math"
 	"os"
 	"sync"
 	"sync/atomic"
@@ -70,6 +71,10 @@ func GetBlocksInSegment(blkSize int) int {
 			return -1
 		}
 	} else if blkSize%pageSize != 0 {
+		return -1
+	}
+	// the segment size (blkSize*8+1)*blkSize must not overflow int
+	if blkSize > math.MaxInt/16 || blkSize*8+1 > math.MaxInt/blkSize {
 		return -1
 	}
 
